@@ -508,6 +508,34 @@ fn gen_for_seq(cases: &mut Vec<Case>, s: &SeqV, rng: &mut Rng, slice_extra_forms
             format!("upd {} {} 99", s.req, i.req),
             true,
         );
+        // swap x[i], y / swap y, x[i]: both reads happen first, then the two writes
+        let (gv, gr) = good_value(s);
+        let mut yvals = vec![(gv, gr)];
+        if cls == "inrange" || cls == "neg" || rng.chance(1, 8) {
+            yvals.extend(bad_values(s).into_iter().take(2));
+        }
+        for (yv, yr) in yvals {
+            push(
+                cases,
+                "tswap",
+                "stmt",
+                s,
+                cls,
+                format!("x = {}; y = {}; r = try (swap x[{}], y; 1) catch _ -> 0; [r, x, y]", s.src, yv, i.src),
+                format!("tswap {} {} {}", s.req, i.req, yr),
+                true,
+            );
+            push(
+                cases,
+                "tswap2",
+                "stmt",
+                s,
+                cls,
+                format!("x = {}; y = {}; r = try (swap y, x[{}]; 1) catch _ -> 0; [r, x, y]", s.src, yv, i.src),
+                format!("tswap2 {} {} {}", s.req, i.req, yr),
+                true,
+            );
+        }
     }
     push(cases, "pop", "stmt", s, "-", format!("x = {}; r = pop x; [r, x]", s.src), format!("pop {}", s.req), true);
 }
@@ -567,11 +595,11 @@ fn slice_class(s: &SeqV, a: &Option<Ix>, b: &Option<Ix>) -> &'static str {
 }
 
 /// nested paths: x[i][j] = v, every x[a:b][j] = v, x[i][j] += d
-fn gen_nested(cases: &mut Vec<Case>, rng: &mut Rng) {
+fn gen_nested(cases: &mut Vec<Case>, rng: &mut Rng, nsrc: &str, nreq: &str, vs: &str, vr: &str) {
     let s = SeqV {
         kind: "nested",
-        src: "[[10,20],[30],[],[40,50,60]]".into(),
-        req: "[[10,20],[30],[],[40,50,60]]".into(),
+        src: nsrc.into(),
+        req: nreq.into(),
         len: 4,
         finite: true,
         ints: true,
@@ -590,8 +618,8 @@ fn gen_nested(cases: &mut Vec<Case>, rng: &mut Rng) {
                 "path",
                 &s,
                 cls,
-                format!("x = {}; x[{}][{}] = 9; x", s.src, i.src, j.src),
-                format!("set {} 9 i={} i={}", s.req, i.req, j.req),
+                format!("x = {}; x[{}][{}] = {}; x", s.src, i.src, j.src, vs),
+                format!("set {} {} i={} i={}", s.req, vr, i.req, j.req),
                 true,
             );
             push(
@@ -635,8 +663,8 @@ fn gen_nested(cases: &mut Vec<Case>, rng: &mut Rng) {
                     "path",
                     &s,
                     cls,
-                    format!("x = {}; every x[{}:][{}] = 9; x", s.src, i.src, j.src),
-                    format!("every {} 9 r={};- i={}", s.req, i.req, j.req),
+                    format!("x = {}; every x[{}:][{}] = {}; x", s.src, i.src, j.src, vs),
+                    format!("every {} {} r={};- i={}", s.req, vr, i.req, j.req),
                     true,
                 );
                 push(
@@ -645,8 +673,8 @@ fn gen_nested(cases: &mut Vec<Case>, rng: &mut Rng) {
                     "path2",
                     &s,
                     cls,
-                    format!("x = {}; every x[{}][:{}] = 9; x", s.src, i.src, j.src),
-                    format!("every {} 9 i={} r=-;{}", s.req, i.req, j.req),
+                    format!("x = {}; every x[{}][:{}] = {}; x", s.src, i.src, j.src, vs),
+                    format!("every {} {} i={} r=-;{}", s.req, vr, i.req, j.req),
                     true,
                 );
             }
@@ -750,7 +778,48 @@ fn random_long(cases: &mut Vec<Case>, interp: &Interp, rng: &mut Rng, n_seqs: u6
     }
 }
 
-const PRELUDE: &str = "x := null; r := null";
+/// For every write case `x = S; <stmt>; <result>` derive the state-observing form: the write runs
+/// under try/catch, `y` is an alias of the sequence taken before it, and the program returns
+/// `[r, x, y]` (r = 1 / [1, result] on success, 0 when the write raised) - the state after a FAILED
+/// write is compared with the model like the state after a successful one.
+fn derive_try_forms(cases: &mut Vec<Case>) {
+    let mut extra = vec![];
+    for c in cases.iter() {
+        let (op, rest) = match c.req.split_once(' ') {
+            Some(x) => x,
+            None => continue,
+        };
+        let top = match op {
+            "set" => "tset",
+            "every" => "tevery",
+            "addat" => "taddat",
+            "rmi" | "rmip" => "trmip",
+            "pop" | "popp" => "tpopp",
+            _ => continue,
+        };
+        let parts: Vec<&str> = c.src.split("; ").collect();
+        if parts.len() != 3 || !parts[0].starts_with("x = ") {
+            continue;
+        }
+        let stmt = parts[1];
+        let rstmt = if let Some(e) = stmt.strip_prefix("r = ") {
+            format!("r = try [1, {}] catch _ -> 0", e)
+        } else {
+            format!("r = try ({}; 1) catch _ -> 0", stmt)
+        };
+        let kind = c.key.split_once('(').map(|x| x.1).unwrap_or("corpus)");
+        extra.push(Case {
+            key: format!("{}({}", top, kind),
+            arm: format!("t{}", c.arm),
+            src: format!("{}; y = x; {}; [r, x, y]", parts[0], rstmt),
+            req: format!("{} {}", top, rest),
+            nontrivial: true,
+        });
+    }
+    cases.extend(extra);
+}
+
+const PRELUDE: &str = "x := null; r := null; y := null";
 
 fn main() {
     let args = parse_args();
@@ -813,12 +882,21 @@ fn main() {
     for s in &seqs {
         gen_for_seq(&mut cases, s, &mut rng, thorough);
     }
-    gen_nested(&mut cases, &mut rng);
+    gen_nested(&mut cases, &mut rng, "[[10,20],[30],[],[40,50,60]]", "[[10,20],[30],[],[40,50,60]]", "9", "9");
+    // strings / bytes / vectors / a stream nested in a list: the failing write happens one level down
+    match interp.eval("[\"abc\",\"d\u{e9}\",B\"xy\",V(1,2)]") {
+        Outcome::Ok(req) => {
+            gen_nested(&mut cases, &mut rng, "[\"abc\",\"d\u{e9}\",B\"xy\",V(1,2)]", &req, "\"z\"", "s:7a");
+            gen_nested(&mut cases, &mut rng, "[\"abc\",\"d\u{e9}\",B\"xy\",V(1,2)]", &req, "65", "65");
+        }
+        o => notes.push(format!("cannot build nested mixed sequence: {}", o.detail())),
+    }
     if thorough {
         random_long(&mut cases, &interp, &mut rng, 5000, &mut notes);
     } else {
         random_long(&mut cases, &interp, &mut rng, 60, &mut notes);
     }
+    derive_try_forms(&mut cases);
     rep.notes.extend(notes);
 
     // run the real interpreter
@@ -839,6 +917,7 @@ fn main() {
     let requests: Vec<String> = cases.iter().map(|c| c.req.clone()).collect();
     let resp = run_driver(&args.driver, &requests);
     let mut charwise = 0u64;
+    let mut corrupted = 0u64;
     let mut charwise_by_key: std::collections::HashMap<String, u64> = Default::default();
     for (i, c) in cases.iter().enumerate() {
         let rust = rust_out[i].class();
@@ -860,12 +939,29 @@ fn main() {
                 continue;
             }
         }
+        // the other recorded deviation: the string arm of set_index leaves a lossy repair of the
+        // string behind when the written byte breaks UTF-8 ("string corrupted"); the model does
+        // not compute the repair, it only says that it happens
+        if let Some(pos) = parts[0].find(",corrupted,") {
+            let (head, tail) = (&parts[0][..pos + 1], &parts[0][pos + ",corrupted".len()..]);
+            if rust.starts_with(head) && rust.ends_with(tail) && rust != parts[1] {
+                key = "write#corrupted".to_string();
+                corrupted += 1;
+                let n = charwise_by_key.entry(key.clone()).or_insert(0u64);
+                *n += 1;
+                if *n <= 3 {
+                    rep.judge(&key, &full_input, &rust, &rust, parts[1]);
+                }
+                continue;
+            }
+        }
         if !rep.judge(&key, &full_input, &rust, parts[0], parts[1]) && rep.fidelity.len() < 10 {
             if let Outcome::Panic(m) | Outcome::Throw(m) = &rust_out[i] {
                 rep.fidelity.push(format!("{} -> {}", c.src, m.lines().next().unwrap_or("")));
             }
         }
     }
+    rep.notes.push(format!("failed string byte assignment that breaks UTF-8 leaves a lossy repair behind (recorded deviation): {} cases", corrupted));
     rep.notes.push(format!("uncons/unsnoc of a non-ASCII string, char-wise instead of byte-wise (recorded deviation): {} cases", charwise));
     rep.write(&args.out);
 }
